@@ -34,6 +34,7 @@ mod c11;
 mod c12;
 mod c13;
 mod c14;
+mod c15;
 
 fn main() {
     let args: Vec<String> = std::env::args().skip(1).collect();
@@ -88,6 +89,7 @@ fn prop_fn(name: &str) -> Option<fn(&mut rep::Ctx)> {
         "c12" => c12::run,
         "c13" => c13::run,
         "c14" => c14::run,
+        "c15" => c15::run,
         _ => return None,
     })
 }
